@@ -372,7 +372,7 @@ fn rt_strategy() -> BoxedStrategy<RtCase> {
             let naming = namings[(b as usize & 0xff) * namings.len() >> 8].clone();
             let is_term = (b >> 8) & 1 == 0;
             let mut src = Src::new(&ch);
-            let cfg = GenCfg { alphabet: 6, max_depth: 4, avoid_same_node_shadowing: false, payload_u32_max: 1000, symbols: vec!["s", "t", "map", "x1", "foo-bar", "<=", "a,b"], ..GenCfg::default() };
+            let cfg = GenCfg { alphabet: 6, max_depth: 4, avoid_same_node_shadowing: false, payload_u32_max: 1000, symbols: vec!["s", "t", "map", "x1", "foo-bar", "<=", "a,b", "\"x\"", "\"x", "a\"b", "'q'", "#1", "a;b", "\u{3bb}", "\u{65e5}\u{672c}", "\\n", "x:=y"], ..GenCfg::default() };
             let pat = if is_term { gen_tm(&sig, &cfg, &mut src, 0) } else { gen_pat(&sig, &cfg, &mut src, 0, true) };
             RtCase { lang, naming, pat, is_term }
         })
@@ -658,6 +658,7 @@ fn text_strategy() -> BoxedStrategy<TextCase> {
     let seeds: Vec<String> = SEED_TEXTS.iter().map(|s| s.to_string()).collect();
     let seeds2 = seeds.clone();
     let seeds3 = seeds.clone();
+    let seeds3_b = seeds.clone();
     let langs = vec![LangId::Lambda, LangId::Arith, LangId::Arith2, LangId::Core, LangId::Sdql, LangId::ArrayLang, LangId::Fgh, LangId::Fp];
     let text = crate::one_of![ 
         // token soup
@@ -752,11 +753,20 @@ fn text_strategy() -> BoxedStrategy<TextCase> {
             TextCase { lang: LangId::Wide, text: format!("(wd {})", a.join(" ")) }
         }
     });
+    // a tokenizer error (a sigil without a name) followed by a long tail with multi-byte characters at every offset: error
+    // values and messages are built from the rest of the input
+    let sigil_tail = (proptest::sample::select(vec![LangId::Lambda, LangId::Arith, LangId::Core]), proptest::sample::select(seeds3_b.clone()), any::<u16>(), proptest::sample::select(vec!["$ ", "$)", "? ", "?]", "$", "?("]), 0usize..70, proptest::sample::select(vec!["\u{e9}", "\u{65e5}\u{672c}", "\u{1f600}", "\u{3bb}x"]), 0usize..40).prop_map(|(lang, seed, cut, sig, pad, mb, pad2)| {
+        let chars: Vec<char> = seed.chars().collect();
+        let n = (cut as usize * (chars.len() + 1)) >> 16;
+        let head: String = chars[..n].iter().collect();
+        TextCase { lang, text: format!("{}{}{}{}{}{}", head, sig, "x".repeat(pad), mb, " y".repeat(pad2 / 2), mb) }
+    });
     crate::one_of![
         8 => (proptest::sample::select(langs), text).prop_map(|(lang, text)| TextCase { lang, text }),
         2 => near,
         1 => long,
         1 => wide,
+        1 => sigil_tail,
     ]
     .boxed()
 }
